@@ -134,17 +134,57 @@ def run_native_part(binary, tier):
     return out
 
 
-def run_unit(tier, with_kani=True):
+def triples(n, k, v):
+    return ';'.join(['0-%d' % n] + ['0-1', k, v] * n)
+
+
+def concurrent_plan(tier, only_full=False):
+    """BOUNDED sequential (+ sampled schedules) stand-in for the concurrent index types."""
+    v2 = '0-1'
+    plan = [
+        ('cfull_ops_le2', triples(2, '0-1', v2) + ';' + triples(2, '0-1', '1'), 'CRelFullIndex: all insert_if_not_present sequences of <= 2 (both the &mut and the shared path) x a second index of <= 2 inserts; freeze/unfreeze; move_index_contents'),
+    ]
+    if not only_full:
+        plan += [
+            ('crelindex_ops_le2', triples(2, '0-1', v2) + ';' + triples(2, '0-1', '1'), 'CRelIndex: all pairs of indices built from <= 2 inserts (both insertion paths); freeze/unfreeze; move_index_contents'),
+            ('crelindex_merge_le1', ';'.join([triples(1, '0-1', v2)] * 3), 'CRelIndex: all triples (new, delta, total) of indices with <= 1 entry: default merge'),
+            ('clatindex_ops_le2', triples(2, '0-1', v2) + ';' + triples(2, '0-1', '1'), 'CLatIndex: all pairs of indices built from <= 2 inserts; freeze/unfreeze; move_index_contents'),
+            ('cnoindex_ops_le2', triples(2, '0', v2) + ';' + triples(2, '0', v2), 'CRelNoIndex: all pairs of <= 2 rows (both insertion paths); move_index_contents'),
+        ]
+    rounds = 40 if tier == 'quick' else 250
+    plan.append(('concurrent_samples', str(rounds), '%d sampled schedules of 4 threads: concurrent inserts all retained; racing insert_if_not_present on 64 absent keys has exactly one winner each' % rounds))
+    return plan
+
+
+def run_concurrent_part(tier, only_full=False):
+    crate = kani.instantiate('cidxcheck')
+    binary, _ = kani.build_native(crate, 'cidxcheck')
+    out = {'results': {}, 'failures': [], 'binary': binary, 'crate': crate}
+
+    def one(p):
+        return p, kani.native_exhaust(binary, p[0], p[1], timeout=3600)
+    with ThreadPoolExecutor(max_workers=3) as ex:
+        for p, r in ex.map(one, concurrent_plan(tier, only_full)):
+            out['results'][p[0]] = dict(r, domain=p[2])
+            for f in r['failures']:
+                out['failures'].append({'harness': p[0], 'obligation': f['obligation'], 'input': f['input']})
+    return out
+
+
+def run_unit(tier, with_kani=True, with_concurrent=None):
+    """with_concurrent: None (skip) | 'all' | 'full' (CRelFullIndex only)"""
     t0 = time.time()
     crate = kani.instantiate('idxcheck')
-    with ThreadPoolExecutor(max_workers=3) as ex:
+    with ThreadPoolExecutor(max_workers=4) as ex:
         fv = ex.submit(run_verus_part)
         fk = ex.submit(run_kani_part, crate, tier) if with_kani else None
+        fc = ex.submit(run_concurrent_part, tier, with_concurrent == 'full') if with_concurrent else None
         binary, _ = kani.build_native(crate, 'idxcheck')
         n = run_native_part(binary, tier)
         v = fv.result()
         k = fk.result() if fk else {'harnesses': [], 'results': {}, 'wall_s': 0, 'failures': [], 'inconclusive': []}
-    return {'verus': v, 'kani': k, 'native': n, 'binary': binary, 'crate': crate, 'wall_s': time.time() - t0}
+        c = fc.result() if fc else None
+    return {'verus': v, 'kani': k, 'native': n, 'concurrent': c, 'binary': binary, 'crate': crate, 'wall_s': time.time() - t0}
 
 
 def find_cex(vf, unit):
